@@ -21,6 +21,10 @@ ASSUMPTIONS = C01.ASSUMPTIONS[:2] + ["seeds w1, w2 and scalars a, b are free sym
 ITEM_TIMEOUT = {"quick": 240, "thorough": 900}
 
 
+def VIEWS_LAYOUT_ITEMS(it, tier):
+    return True
+
+
 def items(tier):
     out = []
     for g in module_grid(tier):
